@@ -60,6 +60,20 @@ class TokenizerContext:
         self.sourceSequence = ""
         self.bucket = ""
 
+    def commitAsToken(self):
+        """Commit outside a string litteral : a pending text that is exactly a keyword is
+        tokenized first (it could not be matched while another token was pending before it)."""
+        if self.bucket in self._tokens:
+            self.doneBuffer += self.candidateBuffer
+            if self.bucket in self._requireColonIfNotBlank:
+                self.candidateBuffer = toUint8(0x3A) + bytesFromUint(
+                    self._tokens[self.bucket]
+                )
+            else:
+                self.candidateBuffer = bytesFromUint(self._tokens[self.bucket])
+            self.bucket = ""
+        self.commit()
+
     def appendAsToken(self, inputSeq):
         tmpBucket = self.bucket + inputSeq
         self.sourceSequence += inputSeq
